@@ -70,6 +70,13 @@ def v1_inputs(rng, tier, k=None):
             pool.append(body + e)
     kk = k if k is not None else (3 if tier == "quick" else 5)
     pool.extend(V.token_strings(kk))
+    # characters whose scalar value has the low byte of CR / LF / SP / 'P' (char-to-u8 truncation),
+    # and whose encodings contain 0x8D / 0x8A / 0xA0 continuation bytes
+    odd = ["\u010d", "\u020d", "\u0d0d", "\U0001f60d", "\u0120", "\u2020", "\u010a", "\u0150", "\u00a0", "\u008d"]
+    for ch in odd:
+        c = ch.encode("utf-8")
+        for body in (b"PROXY UNKNOWN ", b"PROXY UNKNOWN", b"", b"PROXY TCP4 1.1.1.1 2.2.2.2 1 2", b"PROXY "):
+            pool += [body + c + b"\r\n", body + c + b"au\r\nrest", body + b"\r" + c, c + body + b"\r\n", body + c, body + c + c + b"\r\n" + c]
     # multi-byte text around the 107-byte limit (bytes vs characters)
     for k in range(40, 52):
         for pad in (b"", b"a"):
